@@ -371,6 +371,10 @@ func (ps *Pieces) del(p uint32, force bool) (done bool, complete bool) {
 			}
 		}
 		ps.mu.Lock()
+		if ps.pieces[p].data == nil {
+			// freed by Finalise while we were waiting
+			return
+		}
 	}
 
 	done = true
